@@ -31,7 +31,7 @@ def cases(draw):
     pseudo = draw(st.sampled_from([False, False, False, True]))
     if pseudo and fam in ("cubic", "tetragonal", "hexagonal"):
         cell = list(cell)
-        cell[2] = cell[0] * (1 + 1e-3)
+        cell[2] = cell[0] * (1 + draw(st.sampled_from([1e-3, 1e-4, 2e-5])))
         fam = {"cubic": "tetragonal"}.get(fam, fam)
     # cell size: the property covers any lattice; large cells give small d* on the low order rings
     scale = draw(st.sampled_from([1.0, 1.0, 1.0, 4.0, 12.0]))
@@ -44,7 +44,7 @@ def cases(draw):
         r2 = draw(st.integers(0, 9))
     U = draw(gens.rotations())
     seed = draw(st.integers(0, 2 ** 31 - 1))
-    crange = draw(st.sampled_from([1e-7, 1e-4, 0.002]))
+    crange = draw(st.sampled_from([1e-7, 1e-4, 0.002, 0.3, 2.5]))
     return dict(family=fam, cell=[float(x) for x in cell], sym=sym, pseudo=pseudo, nrings=nrings, r1=r1, r2=r2,
                 U=U, seed=seed, crange=crange)
 
